@@ -21,10 +21,20 @@ ORACLES (parameters of the model, not verified — DESIGN.md C15 "Partial"):
     (every theorem holds for every `gen`), and the measured values handed to `verdict`;
   * the Euclidean norm `nrm` in the virtual-site constructions (any function; a square root where a
     distance statement needs it).
+
+Extension (`Model/TemplatesBlock.lean`, `Proofs/TemplatesBlock.lean`; section `block` at the end): the
+per-residue block of `extract_block` (which atoms / interactions / edges; relabelling; defines), the search of
+`find_interaction_involving`, `_good_impropers`, the loop of `_expand_inital_coords`, `renew_vs` and the energy
+of `target_function`.  Further parameters there: the dihedral angle handed to `_good_impropers`, numpy's
+`isclose` tolerance `atol`, the layout sequence of `kamada_kawai_layout`, vermouth's `meta['edge']` flag; the
+literal interaction-type lists, the two type tests and the improper function string come from the translator
+(`TemplateTables.findSearchTypes / findClass / edgeTypes / improperFunc / renewVsTypes`).
 -/
 import PolyplyVerif.Generated.TemplateTables
 import PolyplyVerif.Model.Templates
 import PolyplyVerif.Proofs.Templates
+import PolyplyVerif.Model.TemplatesBlock
+import PolyplyVerif.Proofs.TemplatesBlock
 
 namespace PolyplyVerif.C15
 open PolyplyVerif.Rot PolyplyVerif.Templ PolyplyVerif.Proofs.Rotation PolyplyVerif.Proofs.Templates
@@ -387,5 +397,338 @@ theorem C15_size_positive_partial (thr : Rat) (atoms : List VolAtom) (hrad : ∀
 
 example : computeVolume TemplateTables.volThreshold [⟨⟨0, 0, 0⟩, 0, 47/100⟩] = .exact (47/100) := by
   simp [computeVolume, geomVects, nearRadii, maxList, TemplateTables.volThreshold, isZero]
+
+/-! ## per-residue blocks (`extract_block`), `find_interaction_involving`, `_good_impropers`,
+`_expand_inital_coords`, `renew_vs`, energy -/
+
+section block
+open PolyplyVerif.TemplBlock PolyplyVerif.Proofs.TemplatesBlock
+
+/-- Table facts about the literal interaction-type lists (re-established against the current source on every
+run): `extract_block` makes edges from exactly the types `find_interaction_involving` searches, in the same
+order; every searched type is classified by one of the two type tests (so the inner loop can return for it);
+the bond-like ones are exactly `bonds` and `constraints`; the ones classified as virtual sites are exactly the
+sections `renew_vs` constructs, in the same order, and each of them has an entry in `VIRTUAL_SITES`; the
+layout check and the optimiser look at the same improper function type. -/
+theorem C15_block_tables :
+    TemplateTables.edgeTypes = TemplateTables.findSearchTypes ∧
+    TemplateTables.findSearchTypes.Nodup ∧
+    (∀ t ∈ TemplateTables.findSearchTypes, (TemplateTables.findClass.lookup t).isSome = true) ∧
+    (TemplateTables.findSearchTypes.filter fun t => TemplateTables.findClass.lookup t == some false)
+      = ["bonds", "constraints"] ∧
+    (TemplateTables.findSearchTypes.filter fun t => TemplateTables.findClass.lookup t == some true)
+      = TemplateTables.renewVsTypes ∧
+    (∀ t ∈ TemplateTables.renewVsTypes, (TemplateTables.vsTable.any fun e => e.1.1 == t) = true) ∧
+    TemplateTables.improperFunc = TemplateTables.improperFuncMinimizer := by
+  refine ⟨by decide, by decide, by decide, by decide, by decide, by decide, by decide⟩
+
+/-- FRAME / PARTITION of `extract_block`.  For a molecule whose `interactions` dict has distinct keys (a dict),
+every residue node list `nodes`, every `defines`, every interaction type `t`:
+(1) `block.interactions.get(t, [])` is the FILTER of `molecule.interactions.get(t, [])` by "all atoms lie in
+    the residue", order preserved, each kept interaction relabelled node ↦ atom name with its defines
+    substituted;
+(2) hence membership: `b` is in the block iff it is the image of a molecule interaction of that type lying
+    inside the residue; an interaction with an atom OUTSIDE the residue never contributes;
+(3) the block has a key only for types with at least one kept interaction, its keys are a sublist of the
+    molecule's (same relative order);
+(4) the interactions of the molecule are afterwards unchanged except that the KEPT ones carry the substituted
+    parameters (the in-place side effect of `replace_defined_interaction`); atoms never change. -/
+theorem C15_block_interactions {A : Type} (edgeTypes : List String) (name : Nat → String) (attr : Nat → A)
+    (mol : Dict (List (Ixn Nat))) (hnd : mol.keys.Nodup) (nodes : List Nat) (defines : Dict (List String))
+    (t : String) :
+    let block := extractBlock edgeTypes name attr mol nodes defines
+    getInters block.interactions t
+      = ((getInters mol t).filter (insideResidue nodes)).map (image name defines) ∧
+    (∀ b, b ∈ getInters block.interactions t ↔
+      ∃ i ∈ getInters mol t, (∀ a ∈ i.atoms, a ∈ nodes) ∧ b = image name defines i) ∧
+    (∀ i ∈ getInters mol t, (∃ a ∈ i.atoms, a ∉ nodes) →
+      i ∉ (getInters mol t).filter (insideResidue nodes)) ∧
+    ((∀ e ∈ block.interactions, e.2 ≠ []) ∧ List.Sublist block.interactions.keys mol.keys) ∧
+    getInters (moleculeAfter defines (mapping name nodes) mol) t
+      = (getInters mol t).map fun i =>
+          if insideResidue nodes i then substIxn defines i else i := by
+  intro block
+  have h1 : getInters block.interactions t
+      = ((getInters mol t).filter (insideResidue nodes)).map (image name defines) := by
+    show getInters (blockInteractions defines (mapping name nodes) mol) t = _
+    rw [blockInteractions_get defines _ mol hnd t, extractType_eq]
+    congr 1
+    exact List.filter_congr (fun i _ => keepIxn_eq_inside name nodes i)
+  have hin : ∀ i : Ixn Nat, insideResidue nodes i = true ↔ ∀ a ∈ i.atoms, a ∈ nodes := by
+    intro i; simp [insideResidue]
+  refine ⟨h1, ?_, ?_, ⟨blockInteractions_nonempty defines _ mol, blockInteractions_keys_sublist defines _ mol⟩,
+    ?_⟩
+  · intro b
+    rw [h1, List.mem_map]
+    constructor
+    · rintro ⟨i, hi, rfl⟩
+      rw [List.mem_filter] at hi
+      exact ⟨i, hi.1, (hin i).1 hi.2, rfl⟩
+    · rintro ⟨i, hi, hall, rfl⟩
+      exact ⟨i, List.mem_filter.2 ⟨hi, (hin i).2 hall⟩, rfl⟩
+  · rintro i _ ⟨a, ha, hout⟩ hmem
+    exact hout ((hin i).1 (List.mem_filter.1 hmem).2 a ha)
+  · exact moleculeAfter_get defines name nodes mol t
+
+/-- non-vacuity: residue {0, 1} of a three-atom molecule: the bond 0-1 is kept (define substituted), the bond
+1-2 across the residue border is not; the molecule's own 0-1 bond carries the substituted parameters after -/
+example :
+    let mol : Dict (List (Ixn Nat)) := [("bonds", [⟨[0, 1], ["1", "LEN"], true⟩, ⟨[1, 2], ["1", "LEN"], true⟩])]
+    let name : Nat → String := fun n => if n = 0 then "A" else if n = 1 then "B" else "A"
+    let block := extractBlock TemplateTables.edgeTypes name (fun n => n) mol [0, 1] [("LEN", ["0.47", "1250"])]
+    block.interactions = [("bonds", [⟨["A", "B"], ["1", "0.47", "1250"], true⟩])] ∧
+    block.edges = [("A", "B")] ∧ block.nodes = [("A", 0), ("B", 1)] ∧
+    moleculeAfter [("LEN", ["0.47", "1250"])] (mapping name [0, 1]) mol
+      = [("bonds", [⟨[0, 1], ["1", "0.47", "1250"], true⟩, ⟨[1, 2], ["1", "LEN"], true⟩])] := by
+  decide
+
+/-- Edges of the block: `(a, b)` is added iff it is a pair of CONSECUTIVE atoms of a block interaction (with
+`meta.get('edge', True)`) of one of the edge-making types — so edges only join names of atoms of the residue
+and only come from bonds, constraints and virtual-site definitions lying inside it. -/
+theorem C15_block_edges {A : Type} (name : Nat → String) (attr : Nat → A) (mol : Dict (List (Ixn Nat)))
+    (nodes : List Nat) (defines : Dict (List String)) (a b : String) :
+    let block := extractBlock TemplateTables.edgeTypes name attr mol nodes defines
+    (a, b) ∈ block.edges ↔
+      ∃ t ∈ TemplateTables.findSearchTypes, ∃ i ∈ getInters block.interactions t,
+        i.edge = true ∧ (a, b) ∈ consecutive i.atoms := by
+  intro block
+  show (a, b) ∈ blockEdges TemplateTables.edgeTypes block.interactions ↔ _
+  rw [C15_block_tables.1]
+  simp only [blockEdges, edgesOfType, List.mem_flatMap]
+  constructor
+  · rintro ⟨t, ht, i, hi, hab⟩
+    by_cases he : i.edge = true
+    · rw [if_pos he] at hab; exact ⟨t, ht, i, hi, he, hab⟩
+    · rw [if_neg he] at hab; cases hab
+  · rintro ⟨t, ht, i, hi, he, hab⟩
+    exact ⟨t, ht, i, hi, by rw [if_pos he]; exact hab⟩
+
+example : consecutive ["V", "A", "B", "C"] = [("V", "A"), ("A", "B"), ("B", "C")] := by decide
+
+/-- One block node per atom NAME.  The nodes of the block are the distinct atom names of the residue in order
+of first occurrence (never a repeated node); the block has as many nodes as the residue has atoms IF AND ONLY
+IF the atom names of the residue are pairwise distinct — then the node list is the name list and relabelling
+is injective on the residue (distinct atoms stay distinct, the relabelled atom lists of two interactions agree
+only if the atom lists do).  OTHERWISE atoms with equal names COLLAPSE into one node: the block has strictly
+fewer nodes than the residue has atoms, and the collapsed node carries the attributes of the LAST residue atom
+of that name — the template (one position per block node) then has one position per distinct name, not per
+atom. -/
+theorem C15_block_nodes {A : Type} (edgeTypes : List String) (name : Nat → String) (attr : Nat → A)
+    (mol : Dict (List (Ixn Nat))) (nodes : List Nat) (defines : Dict (List String)) :
+    let block := extractBlock edgeTypes name attr mol nodes defines
+    block.nodes.keys = firstOccurrences (nodes.map name) ∧ block.nodes.keys.Nodup ∧
+    (∀ s, s ∈ block.nodes.keys ↔ ∃ n ∈ nodes, name n = s) ∧
+    (∀ s, block.nodes.get? s = (nodes.reverse.find? (fun n => name n = s)).map attr) ∧
+    block.nodes.keys.length ≤ nodes.length ∧
+    (block.nodes.keys.length = nodes.length ↔ (nodes.map name).Nodup) ∧
+    ((nodes.map name).Nodup →
+      block.nodes.keys = nodes.map name ∧
+      (∀ a ∈ nodes, ∀ b ∈ nodes, name a = name b → a = b) ∧
+      (∀ i j : Ixn Nat, (∀ a ∈ i.atoms, a ∈ nodes) → (∀ a ∈ j.atoms, a ∈ nodes) →
+        i.atoms.map name = j.atoms.map name → i.atoms = j.atoms)) ∧
+    (¬ (nodes.map name).Nodup → block.nodes.keys.length < nodes.length) := by
+  intro block
+  have hk : block.nodes.keys = firstOccurrences (nodes.map name) := blockNodes_keys name attr nodes
+  have hlen := firstOccurrences_length_le (nodes.map name)
+  have hiff := firstOccurrences_length_eq_iff (nodes.map name)
+  rw [List.length_map] at hlen hiff
+  refine ⟨hk, hk ▸ firstOccurrences_nodup _, ?_, blockNodes_get? name attr nodes, hk ▸ hlen, hk ▸ hiff, ?_, ?_⟩
+  · intro s; rw [hk, mem_firstOccurrences, List.mem_map]
+  · intro hnd
+    have hinj : ∀ a ∈ nodes, ∀ b ∈ nodes, name a = name b → a = b :=
+      fun a ha b hb e => List.inj_on_of_nodup_map hnd ha hb e
+    refine ⟨by rw [hk, firstOccurrences_of_nodup _ hnd], hinj, ?_⟩
+    intro i j hi hj e
+    exact map_inj_on name nodes hinj i.atoms j.atoms hi hj e
+  · intro hnd
+    rw [hk]
+    exact lt_of_le_of_ne hlen (fun e => hnd (hiff.1 e))
+
+/-- non-vacuity, both cases: distinct names keep three nodes; with the name "A" used twice the residue's three
+atoms collapse into two block nodes and node "A" carries the attributes of atom 2 (the last "A") -/
+example :
+    (extractBlock TemplateTables.edgeTypes (fun n => if n = 0 then "A" else if n = 1 then "B" else "C")
+      (fun n => n) [] [0, 1, 2] []).nodes = [("A", 0), ("B", 1), ("C", 2)] ∧
+    (extractBlock TemplateTables.edgeTypes (fun n => if n = 0 then "A" else if n = 1 then "B" else "A")
+      (fun n => n) [] [0, 1, 2] []).nodes = [("A", 2), ("B", 1)] := by
+  decide
+
+/-- `find_interaction_involving` returns the FIRST interaction, in the (translated) literal order of the types
+and within a type in the order of the block, that contains both nodes — together with the flag of its type
+(bond-like: false, virtual site: true) — and raises iff no interaction of any searched type contains both:
+`some (vs, i, t)` iff `t` is a searched type with flag `vs`, `i` is in `block.interactions[t]` with both nodes
+among its atoms, no earlier interaction of `t` contains both, and no interaction of a type searched before
+`t` contains both. -/
+theorem C15_find_interaction_first (inters : Dict (List (Ixn String))) (cur prev : String) :
+    (∀ vs i t, findInteraction TemplateTables.findSearchTypes TemplateTables.findClass inters cur prev
+        = some (vs, i, t) ↔
+      ∃ pre post, TemplateTables.findSearchTypes = pre ++ t :: post ∧
+        TemplateTables.findClass.lookup t = some vs ∧
+        (∀ t' ∈ pre, ∀ j ∈ getInters inters t', both cur prev j = false) ∧
+        both cur prev i = true ∧
+        ∃ before after, getInters inters t = before ++ i :: after ∧ ∀ j ∈ before, both cur prev j = false) ∧
+    (findInteraction TemplateTables.findSearchTypes TemplateTables.findClass inters cur prev = none ↔
+      ∀ t ∈ TemplateTables.findSearchTypes, ∀ j ∈ getInters inters t, both cur prev j = false) := by
+  have hcls := C15_block_tables.2.2.1
+  have hnone : ∀ t ∈ TemplateTables.findSearchTypes,
+      (hitOfType TemplateTables.findClass inters cur prev t = none ↔
+        ∀ j ∈ getInters inters t, both cur prev j = false) := by
+    intro t ht
+    rw [hitOfType_eq_none_iff]
+    constructor
+    · rintro (h | h)
+      · have := hcls t ht; rw [h] at this; cases this
+      · exact h
+    · exact Or.inr
+  constructor
+  · intro vs i t
+    rw [findInteraction_eq, List.findSome?_eq_some_iff]
+    constructor
+    · rintro ⟨pre, t0, post, hsplit, hhit, hpre⟩
+      obtain ⟨hl, ht, hb, before, after, hs, hbefore⟩ :=
+        (hitOfType_eq_some_iff _ inters cur prev t0 (vs, i, t)).1 hhit
+      simp only at hl ht hb hs hbefore
+      subst ht
+      refine ⟨pre, post, hsplit, hl, ?_, hb, before, after, hs, hbefore⟩
+      intro t' ht'
+      exact (hnone t' (by rw [hsplit]; simp [ht'])).1 (hpre t' ht')
+    · rintro ⟨pre, post, hsplit, hl, hpre, hb, before, after, hs, hbefore⟩
+      refine ⟨pre, t, post, hsplit, ?_, ?_⟩
+      · exact (hitOfType_eq_some_iff _ inters cur prev t (vs, i, t)).2 ⟨hl, rfl, hb, before, after, hs, hbefore⟩
+      · intro t' ht'
+        exact (hnone t' (by rw [hsplit]; simp [ht'])).2 (hpre t' ht')
+  · rw [findInteraction_eq, List.findSome?_eq_none_iff]
+    constructor
+    · intro h t ht; exact (hnone t ht).1 (h t ht)
+    · intro h t ht; exact (hnone t ht).2 (h t ht)
+
+/-- non-vacuity: a constraint A-B is found before the virtual site that also contains A and B; a pair only a
+virtual site links is reported as virtual; an unlinked pair raises -/
+example :
+    let inters : Dict (List (Ixn String)) :=
+      [("virtual_sites2", [⟨["V", "A", "B"], ["1", "0.5"], true⟩]), ("constraints", [⟨["A", "B"], ["1", "0.3"], true⟩]),
+       ("angles", [⟨["A", "B", "C"], ["1", "120", "10"], true⟩])]
+    findInteraction TemplateTables.findSearchTypes TemplateTables.findClass inters "A" "B"
+      = some (false, ⟨["A", "B"], ["1", "0.3"], true⟩, "constraints") ∧
+    findInteraction TemplateTables.findSearchTypes TemplateTables.findClass inters "V" "B"
+      = some (true, ⟨["V", "A", "B"], ["1", "0.5"], true⟩, "virtual_sites2") ∧
+    findInteraction TemplateTables.findSearchTypes TemplateTables.findClass inters "B" "C" = none := by
+  decide
+
+/-- `_good_impropers` is true iff EVERY dihedral of the (translated) improper function type "2" whose reference
+angle is not (numerically) zero has a dihedral angle of the same sign as its reference — equivalently
+`angle · ref > 0`; dihedrals of other function types and impropers with zero reference are ignored. -/
+theorem C15_good_impropers_iff (atol : Rat) (hatol : 0 ≤ atol) (ds : List Improper) :
+    goodImpropers TemplateTables.improperFunc atol ds = true ↔
+      ∀ d ∈ ds, d.func = "2" → atol < |d.ref| → 0 < d.angle * d.ref := by
+  rw [goodImpropers_iff]
+  have hf : TemplateTables.improperFunc = "2" := by decide
+  constructor
+  · intro h d hd hfun hz
+    have hne : d.ref ≠ 0 := by
+      intro e; rw [e, abs_zero] at hz; exact absurd hz (not_lt.2 hatol)
+    rw [← sgn_eq_iff_mul_pos _ _ hne]
+    exact h d hd (hf ▸ hfun) (by rw [rabs_eq_abs]; exact not_le.2 hz)
+  · intro h d hd hfun hz
+    rw [rabs_eq_abs] at hz
+    have hz' := not_le.1 hz
+    have hne : d.ref ≠ 0 := by
+      intro e; rw [e, abs_zero] at hz'; exact absurd hz' (not_lt.2 hatol)
+    rw [sgn_eq_iff_mul_pos _ _ hne]
+    exact h d hd (hf ▸ hfun) hz'
+
+example : goodImpropers TemplateTables.improperFunc (1 / 100000000)
+      [⟨"2", 25, 35⟩, ⟨"1", -170, 180⟩, ⟨"2", -3, 0⟩] = true ∧
+    goodImpropers TemplateTables.improperFunc (1 / 100000000) [⟨"2", 25, 35⟩, ⟨"2", 25, -35⟩] = false := by
+  constructor <;> simp [goodImpropers, TemplateTables.improperFunc, rabs, sgn] <;> norm_num
+
+/-- `_expand_inital_coords`: with `layout k` the result of the k-th layout call, the function returns
+`layout (n − 1)` where `n ≥ 1` is the number of layouts drawn, `n ≤ max_count + 1`, every earlier layout
+failed the improper test, and the returned one passes it unless the bound was hit (`n = max_count + 1`). -/
+theorem C15_expand_initial_coords {C : Type} (layout : Nat → C) (good : C → Bool) (maxCount : Nat) :
+    let r := expandInitialCoords layout good maxCount
+    1 ≤ r.2 ∧ r.2 ≤ maxCount + 1 ∧ r.1 = layout (r.2 - 1) ∧
+    (∀ k, k < r.2 - 1 → good (layout k) = false) ∧ (good r.1 = true ∨ r.2 = maxCount + 1) :=
+  expandLoop_spec layout good maxCount (maxCount + 1) 0 (by omega) (by omega) (fun k hk => absurd hk (by omega))
+
+example : expandInitialCoords (fun k => k) (fun c => c == 3) 50 = (3, 4) ∧
+    expandInitialCoords (fun k => k) (fun _ => false) 2 = (2, 3) := by decide
+
+/-- FRAME of `renew_vs`: when it succeeds, the keys (atoms, row order) of the positions are unchanged and the
+position of every atom that is not the SITE (first atom) of a virtual-site interaction of one of the
+constructed sections is unchanged — only virtual sites are recomputed. -/
+theorem C15_renew_vs_frame (nrm : Rat → Rat) (inters : Dict (List VsIxn)) (pos pos' : Template Rat)
+    (h : renewVS TemplateTables.renewVsTypes TemplateTables.vsTable nrm inters pos = some pos') :
+    pos'.map (·.1) = pos.map (·.1) ∧
+    ∀ k, (∀ t ∈ TemplateTables.renewVsTypes, ∀ vs ∈ (Dict.get? inters t).getD [], siteOf vs ≠ some k) →
+      Dict.get? pos' k = Dict.get? pos k :=
+  renewVS_frame _ _ nrm inters pos pos' h
+
+/-- non-vacuity: one `virtual_sites2` site V halfway between A and B; A and B keep their positions -/
+example : renewVS TemplateTables.renewVsTypes TemplateTables.vsTable (fun q => q)
+      [("virtual_sites2", [⟨["V", "A", "B"], "1", [1 / 2]⟩])]
+      [("A", ⟨0, 0, 0⟩), ("V", ⟨9, 9, 9⟩), ("B", ⟨4, 2, 0⟩)]
+    = some [("A", ⟨0, 0, 0⟩), ("V", ⟨2, 1, 0⟩), ("B", ⟨4, 2, 0⟩)] := by
+  simp [renewVS, renewType, renewOne, lookupAll, Dict.get?, Dict.set, TemplateTables.renewVsTypes,
+    TemplateTables.vsTable, constructVS, List.find?, constructByName, vs2, weightedAverage, V3.sum, V3.add,
+    V3.zero, V3.smul, V3.sdiv]
+  norm_num
+
+/-- The energy `target_function` minimises is the SUM of the penalties `W·(value − target)²` of the requested
+bonds, constraints, angles and type-2 impropers (other dihedrals contribute 0); with the current tables every
+term is non-negative, so the energy is non-negative and it is zero iff every such interaction sits exactly at
+its target. -/
+theorem C15_energy_terms (items : List Item)
+    (hk : ∀ it ∈ items, it.kind ∈ ["bonds", "constraints", "angles", "dihedrals"]) :
+    let E := energy TemplateTables.weights TemplateTables.interMethods TemplateTables.penaltyWeightKey items
+    E = (items.map (penalty TemplateTables.weights TemplateTables.interMethods TemplateTables.penaltyWeightKey)).sum ∧
+    0 ≤ E ∧
+    (E = 0 ↔ ∀ it ∈ items, ¬ (it.kind = "dihedrals" ∧ it.improper = false) → it.value = it.target) := by
+  intro E
+  have hsum := energy_eq_sum TemplateTables.weights TemplateTables.interMethods TemplateTables.penaltyWeightKey items
+  have hnn : ∀ x ∈ items.map (penalty TemplateTables.weights TemplateTables.interMethods
+      TemplateTables.penaltyWeightKey), 0 ≤ x := by
+    intro x hx
+    obtain ⟨it, hit, rfl⟩ := List.mem_map.1 hx
+    exact penalty_nonneg _ _ _ it (le_of_lt (C15_tables_positive it.kind (hk it hit)).1)
+  refine ⟨hsum, ?_, ?_⟩
+  · show 0 ≤ energy _ _ _ items
+    rw [hsum]; exact sum_nonneg_of_forall _ hnn
+  show energy _ _ _ items = 0 ↔ _
+  rw [hsum, sum_eq_zero_iff_of_nonneg _ hnn]
+  constructor
+  · intro h it hit hnot
+    have h0 := h _ (List.mem_map.2 ⟨it, hit, rfl⟩)
+    unfold penalty at h0
+    have hc : (it.kind = "dihedrals" && !it.improper) = false := by
+      cases hi : it.improper
+      · have : ¬ it.kind = "dihedrals" := fun e => hnot ⟨e, hi⟩
+        simp [this]
+      · simp
+    rw [hc] at h0
+    simp only [Bool.false_eq_true, if_false] at h0
+    have hw := (C15_tables_positive it.kind (hk it hit)).1
+    rcases mul_eq_zero.1 h0 with h1 | h1
+    · exact absurd h1 (ne_of_gt hw)
+    · have := mul_self_eq_zero.1 h1
+      linarith
+  · intro h x hx
+    obtain ⟨it, hit, rfl⟩ := List.mem_map.1 hx
+    unfold penalty
+    split
+    · rfl
+    · rename_i hc
+      have hnot : ¬ (it.kind = "dihedrals" ∧ it.improper = false) := by
+        rintro ⟨e1, e2⟩; apply hc; simp [e1, e2]
+      rw [h it hit hnot]; simp
+
+example : energy TemplateTables.weights TemplateTables.interMethods TemplateTables.penaltyWeightKey
+    [⟨"bonds", false, 31/100, 3/10⟩, ⟨"angles", false, 123, 120⟩, ⟨"dihedrals", false, 50, 0⟩] = 10 := by
+  have k1 : penaltyKey TemplateTables.interMethods TemplateTables.penaltyWeightKey "bonds" = "bonds" := by decide
+  have k2 : penaltyKey TemplateTables.interMethods TemplateTables.penaltyWeightKey "angles" = "angles" := by decide
+  simp [energy, penalty, penaltyWeight, k1, k2, lookupD, Dict.get?, TemplateTables.weights]
+  norm_num
+
+end block
 
 end PolyplyVerif.C15
